@@ -24,7 +24,7 @@ def describe(tier):
         'bounds': 'alphabet 8; BFS fixpoint; all histories of length <= %d' % DEPTH[tier],
         'assumptions': ['the server cleanup delay elapses between two CLI commands (each command is a separate process run in reality)',
                         'scheme = CJJ14.PiBas (thorough: also CT14.Pi); the guards under test are scheme-independent'],
-        'must_be_nonzero': ['bfs-fixpoint', 'dfs-histories', 'refused', 'accepted', 'searches-after-upload', 'key-checked'],
+        'must_be_nonzero': ['bfs-fixpoint', 'dfs-histories', 'refused', 'accepted', 'searches-after-upload', 'key-checked', 'create-matrix/instantiable', 'create-matrix/not-instantiable'],
         'cli_level': 'the same BFS + DFS (depth one less) is repeated through frontend/client/commands.py with 10 commands incl. create from a missing / truncated-JSON file',
     }
 
@@ -37,6 +37,7 @@ def units(tier, seed):
         for a, b in itertools.product(ALPHABET, repeat=2):
             us.append(('dfs/%s/%s/%s' % (name, a, b), {'kind': 'dfs', 'scheme': name, 'prefix': [a, b]}))
         us.append(('dfs-short/' + name, {'kind': 'dfs-short', 'scheme': name}))
+    us.append(('create-matrix', {'kind': 'create-matrix', 'scheme': 'all'}))
     # the same model through frontend/client/commands.py, all commands of a history in one process
     us.append(('cli-bfs', {'kind': 'bfs', 'scheme': 'CJJ14.PiBas', 'cli': True}))
     for a, b in itertools.product(CLI_ALPHABET, repeat=2):
@@ -381,8 +382,80 @@ class CliSystem(ClientSystem):
         return super().canon(s)
 
 
+def run_create_matrix(r, seed):
+    """'a configuration that the chosen scheme cannot be instantiated with does not create a service' for EVERY scheme: the shipped
+    default configuration exactly as the CLI generates it (JSON round trip), a small valid one, and the default with one field
+    deleted / a wrong key size / an unknown primitive.  Instantiable (decided by constructing the scheme, not by the client's
+    own check) <=> a service is created; a refusal leaves no directory behind."""
+    import importlib, json as _json
+    m = fe.mods()
+    root = str(m['cfm']._PROGRAM_PATH)
+    for name in sse.SCHEMES:
+        cfgmod = importlib.import_module('schemes.%s.config' % name)
+        default = _json.loads(_json.dumps(cfgmod.DEFAULT_CONFIG))
+        variants = [('shipped-default', default), ('small-valid', _json.loads(_json.dumps(sse.finalize_cfg(name, sse.base_cfg(name), {b'w': [b'x']}))))]
+        keyf = next((f for f in ('param_lambda', 'param_k', 'param_k_prime') if f in default), None)
+        first = next(f for f in default if f != 'scheme')
+        variants.append(('field-deleted', {k: v for k, v in default.items() if k != first}))
+        if keyf:
+            variants.append(('key-size-17', dict(default, **{keyf: 17})))
+        prim = next((f for f in default if isinstance(default[f], str) and f != 'scheme'), None)
+        if prim:
+            variants.append(('unknown-primitive', dict(default, **{prim: 'no-such-primitive'})))
+        variants.append(('unknown-scheme', dict(default, scheme='No.Such')))
+        for label, cfg in variants:
+            case = {'create_matrix': name, 'variant': label}
+            core.note_case(case)
+            r['evaluations'] += 1
+            r['states'] += 1
+            r['transitions'] += 1
+            try:
+                import schemes as _schemes
+                L = _schemes.load_sse_module(cfg.get('scheme'))
+                L.SSEScheme(copy.deepcopy(cfg))
+                instantiable = True
+            except Exception:
+                instantiable = False
+            r.count('create-matrix/' + ('instantiable' if instantiable else 'not-instantiable'))
+            w = fe.World(eager=True)
+            try:
+                det.seed_case(seed, PROPERTY, 'create-matrix', name, label)
+                cl = fe.ClientDriver(w)
+                before = set(os.listdir(root))
+                raised = None
+                try:
+                    cl.create(copy.deepcopy(cfg))
+                except Exception as e:
+                    raised = e
+                new = sorted(set(os.listdir(root)) - before)
+                for dname in new:
+                    w.client_sids.append(dname)
+                if instantiable:
+                    r['nontrivial'] += 1
+                    if raised is not None:
+                        r.v(PROPERTY, 'client', 'valid-operation-refused', 'create-matrix/%s:%s' % (label, type(raised).__name__), case, 'service created', core.exc_text(raised))
+                    elif len(new) != 1 or not {'config.json', 'service_meta'} <= set(os.listdir(os.path.join(root, new[0]))):
+                        r.v(PROPERTY, 'client', 'service-not-created', 'create-matrix/' + label, case, 'one service directory with config.json and service_meta', new)
+                    else:
+                        r.outcome('create-matrix/created')
+                else:
+                    if raised is None:
+                        r.v(PROPERTY, 'client', 'invalid-operation-accepted', 'create-matrix/' + label, case, 'refused with an error (the scheme cannot be instantiated with it)', 'accepted')
+                    if new:
+                        r.v(PROPERTY, 'client', 'refused-operation-changed-files', 'create-matrix/' + label, case, 'no service directory', new)
+                    if raised is not None and not new:
+                        r.outcome('create-matrix/refused')
+            finally:
+                w.close()
+    r.sample({'create_matrix': 'all 9 schemes x {shipped default via JSON, small valid, field deleted, key size 17, unknown primitive, unknown scheme}'}, limit=1)
+
+
 def run_unit(p, tier, seed):
     r = core.Result()
+    if p['kind'] == 'create-matrix':
+        run_create_matrix(r, seed)
+        det.restore()
+        return r
     system = (CliSystem if p.get('cli') else ClientSystem)(seed, p['scheme'])
     ALPHABET_ = CLI_ALPHABET if p.get('cli') else ALPHABET
 
@@ -456,6 +529,9 @@ def run_unit(p, tier, seed):
 
 def replay(case, seed):
     r = core.Result()
+    if 'create_matrix' in case:
+        run_create_matrix(r, seed)
+        return [v for v in r['violations'] if v['case'].get('create_matrix') == case['create_matrix'] and v['case'].get('variant') == case['variant']]
     system = (CliSystem if case.get('cli') else ClientSystem)(seed, case['scheme'])
     s = system.fresh()
     try:
